@@ -7,6 +7,7 @@
  *   enc e1 e2 ...                 client sends SetEncodings (signed 32-bit numbers)
  *   paint KIND SEED x y w h a b   write generated content into the framebuffer (no marking)
  *   mark x y w h                  rfbMarkRectAsModified
+ *   newfb BYTESPP                 rfbNewFramebuffer: same size, new pixel format -> "srvfmt ..." line
  *   req incr x y w h              client sends FramebufferUpdateRequest; event loop runs until idle
  *   cfg corre W H                 cl->correMaxWidth/Height (library API field)
  *   unlzo OUTLEN HEX              LZO1X-decompress with the repository's minilzo (trusted codec)
@@ -279,6 +280,20 @@ int main(void) {
     } else if (!strcmp(tok[0], "paint") && n == 9) {
       paint(tok[1], strtoull(tok[2], NULL, 10), atoi(tok[3]), atoi(tok[4]), atoi(tok[5]), atoi(tok[6]), atol(tok[7]), atol(tok[8]));
       puts("ok");
+    } else if (!strcmp(tok[0], "newfb") && n == 2) {
+      /* rfbNewFramebuffer in mid-session: same size, another pixel format (bytes per pixel) */
+      int b = atoi(tok[1]); char *oldfb = scr->frameBuffer;
+      if (b != 1 && b != 2 && b != 4) puts("bad-op");
+      else {
+        char *nfb = (char *)calloc((size_t)scr->width * scr->height, b);
+        rfbPixelFormat *f;
+        rfbNewFramebuffer(scr, nfb, scr->width, scr->height, b == 2 ? 5 : 8, b == 1 ? 1 : 3, b);
+        free(oldfb);
+        f = &scr->serverFormat;
+        printf("srvfmt %d %d %d %d %d %d %d %d %d %d\n", f->bitsPerPixel, f->depth, f->bigEndian ? 1 : 0,
+               f->trueColour ? 1 : 0, f->redMax, f->greenMax, f->blueMax, f->redShift, f->greenShift, f->blueShift);
+        puts("ok");
+      }
     } else if (!strcmp(tok[0], "mark") && n == 5) {
       int x = atoi(tok[1]), y = atoi(tok[2]), w = atoi(tok[3]), h = atoi(tok[4]);
       rfbMarkRectAsModified(scr, x, y, x + w, y + h); puts("ok");
